@@ -23,7 +23,7 @@ import (
 
 // Fault selects the result-set shape every statement of the request gets and the one injected fault.
 type Fault struct {
-	Shape string `json:"shape"`          // empty | 1batch | 3batches | edge | 3batches_mixed
+	Shape string `json:"shape"`          // empty | 1batch | 3batches | edge | 3batches_mixed | rogue_before | rogue_after | rogue_far | 3batches_rogue | unordered | dups
 	Kind  string `json:"kind,omitempty"` // "" | open_err | row_err | scan_err | end_err | block | block_open
 	Nth   int    `json:"nth,omitempty"`  // index (0-based, in order of arrival) of the statement that gets the fault
 	Row   int    `json:"row,omitempty"`  // row index k for row_err / scan_err / block
@@ -292,6 +292,9 @@ type window struct {
 	lo, hi int64 // rows have lo <= ts < hi (ns)
 	bucket int64 // output timestamps are multiples of bucket (intDiv(ts, D) * D), 0 = none
 	bound  bool
+	// rogue: the "disobedient database" shapes ignore the window the statement asked for:
+	// before | after | far (int64 extremes, 0, -1) | some (every 50th row, alternating before / after / far)
+	rogue string
 }
 
 var (
@@ -349,6 +352,21 @@ func (w *window) empty() bool { return w.hi <= w.lo }
 
 // at spreads n rows evenly and strictly inside the window, ascending inside each block of 100 rows (one series).
 func (w *window) at(i, n int) int64 {
+	rogue := w.rogue
+	if rogue == "some" {
+		rogue = ""
+		if i%50 == 7 {
+			rogue = []string{"before", "after", "far"}[(i/50)%3]
+		}
+	}
+	switch rogue {
+	case "before":
+		return satAdd(w.lo, -3600e9-int64(i)*1e9)
+	case "after":
+		return satAdd(w.hi, 3600e9+int64(i)*1e9)
+	case "far":
+		return []int64{math.MinInt64, math.MaxInt64, 0, -1}[i%4]
+	}
 	span := new(big.Int).Sub(big.NewInt(w.hi), big.NewInt(w.lo))
 	k := int64(i%100 + 1)
 	off := new(big.Int).Div(new(big.Int).Mul(span, big.NewInt(k)), big.NewInt(101))
@@ -359,12 +377,23 @@ func (w *window) at(i, n int) int64 {
 	return ts
 }
 
+func satAdd(a, b int64) int64 {
+	c := a + b
+	if b > 0 && c < a {
+		return math.MaxInt64
+	}
+	if b < 0 && c > a {
+		return math.MinInt64
+	}
+	return c
+}
+
 // shapeRows is the number of rows a shape asks for.
 func shapeRows(shape string) int {
 	switch shape {
 	case "empty":
 		return 0
-	case "3batches", "3batches_mixed":
+	case "3batches", "3batches_mixed", "3batches_rogue", "unordered", "dups":
 		return 250
 	}
 	return 3
@@ -420,14 +449,32 @@ func (s *Script) Handle(ctx context.Context, q string, _ []driver.NamedValue) (*
 	edge := s.fault.Shape == "edge"
 	mixed := s.fault.Shape == "3batches_mixed" // a large result in which every 7th row carries edge values
 	w := parseWindow(q)
-	if w.empty() && !cl.single {
+	// disobedient database: rows outside the window the statement asked for, out of order, repeated
+	switch s.fault.Shape {
+	case "rogue_before":
+		w.rogue = "before"
+	case "rogue_after":
+		w.rogue = "after"
+	case "rogue_far":
+		w.rogue = "far"
+	case "3batches_rogue":
+		w.rogue = "some"
+	}
+	if w.empty() && !cl.single && w.rogue == "" {
 		n = 0
 	}
 	if cl.single {
 		res.Add(cl.row(0, n, edge, w)...)
 	} else {
 		for i := 0; i < n; i++ {
-			res.Add(cl.row(i, n, edge || (mixed && i%7 == 5), w)...)
+			j := i
+			switch s.fault.Shape {
+			case "unordered":
+				j = (i * 97) % n // a permutation of 0..249: fingerprints and timestamps arrive interleaved
+			case "dups":
+				j = i / 2 * 2 // every row twice
+			}
+			res.Add(cl.row(j, n, edge || (mixed && i%7 == 5), w)...)
 		}
 	}
 	s.mu.Lock()
